@@ -3,7 +3,7 @@
 Theorems: coq/theories/C02 (the transliterated loops of obj/mod.rs — skip counter, add stack,
 omitted_until — refine the right-to-left layer recursion for EVERY well-formed layer list, name
 and starting layer; visibility, `in`, objectHas*, objectFields* agree; objectRemoveKey spec;
-the chain-program interpreter over the impl loops equals the one over the spec).
+the chain-program interpreter over the impl loops equals the one over the spec: C02_eval_refines).
 Correspondence: chain programs (object literals, +, extension, std.objectRemoveKey, self/super/$
 reads, +:, ::, :::, object locals, asserts, nested objects) are rendered to Jsonnet and to a Gallina
 term; the real code is probed through `jrharness eval` (manifestation, every field read,
